@@ -71,11 +71,12 @@ impl Array {
         } else {
             let backward_op: BackwardOp = Rc::new(move |_, t, x| {
                 vec![if t[0] {
-                    Some(Array::roll_blocks(
+                    Some(Array::roll_blocks_op(
                         x,
                         image_dimensions,
                         stride_dimensions,
                         filter_dimensions,
+                        true,
                     ))
                 } else {
                     None
@@ -93,6 +94,24 @@ impl Array {
         image_dimensions: (usize, usize, usize),
         stride_dimensions: (usize, usize),
         filter_dimensions: (usize, usize),
+    ) -> Array {
+        Array::roll_blocks_op(
+            unrolled,
+            image_dimensions,
+            stride_dimensions,
+            filter_dimensions,
+            false,
+        )
+    }
+
+    /// Rolls the blocks back into an image, either keeping the last value written to each position (the inverse
+    /// of unrolling), or accumulating the values of overlapping blocks (the derivative of unrolling).
+    fn roll_blocks_op(
+        unrolled: &Array,
+        image_dimensions: (usize, usize, usize),
+        stride_dimensions: (usize, usize),
+        filter_dimensions: (usize, usize),
+        is_accumulated: bool,
     ) -> Array {
         let dimension_count = unrolled.dimensions.len();
         let (image_depth, image_rows, image_cols) = image_dimensions;
@@ -144,7 +163,11 @@ impl Array {
                         filter_col_index + filter_row_offset + depth_offset + stride_offset
                     };
 
-                    output_slice[output_index] = arrays[0][input_index];
+                    if is_accumulated {
+                        output_slice[output_index] += arrays[0][input_index];
+                    } else {
+                        output_slice[output_index] = arrays[0][input_index];
+                    }
                 }
             }
         });
